@@ -411,29 +411,40 @@ def check(an: Analysis) -> None:
     isc = prog.fn(f"{SM}.is_completed")
     from ..kinds import eval_expr
 
-    for r in [r for r in isc.own_nodes() if isinstance(r, ast.Return)]:
-        ob.inst(isc, r, "is_completed")
+    gc_ = an.cfg(isc)
+    # the nested part written as a loop: `for nested in self._nested: if not nested.is_completed: return False`
+    isc_loops = [n for n in gc_.nodes if n.kind == "for-iter" and isinstance(n.ast, ast.For) and dotted(n.ast.iter) == "self._nested" and isinstance(n.ast.target, ast.Name)]
+    isc_vars = {n.ast.target.id for n in isc_loops}  # type: ignore[union-attr]
 
-        def env_pending(e: ast.AST):
-            if isinstance(e, ast.Call) and isinstance(e.func, ast.Attribute) and e.func.attr == "done" and dotted(e.func.value) == "self._completed":
-                return False
-            return NOVALUE
+    def own_done(e: ast.AST) -> bool:
+        return isinstance(e, ast.Call) and isinstance(e.func, ast.Attribute) and e.func.attr == "done" and dotted(e.func.value) == "self._completed"
 
-        def env_all_done(e: ast.AST):
-            if isinstance(e, ast.Call) and isinstance(e.func, ast.Attribute) and e.func.attr == "done" and dotted(e.func.value) == "self._completed":
-                return True
-            if isinstance(e, ast.Call) and is_name(e.func, "all"):
-                return True
-            if isinstance(e, ast.Call) and is_name(e.func, "any"):
-                return False
-            return NOVALUE
+    def env_pending(e: ast.AST):
+        if own_done(e):
+            return False
+        return NOVALUE
 
-        v1 = eval_expr(r.value, env_pending)
-        if v1 is NOVALUE or v1:
-            ob.fail(isc, r, "is_completed can be true while the scope's own completion is still pending: a parent then completes (and fires its callback) before this scope was left")
-        v2 = eval_expr(r.value, env_all_done)
-        if v2 is not NOVALUE and not v2:
-            ob.fail(isc, r, "is_completed is false although the scope and all nested scopes completed")
+    def env_all_done(e: ast.AST):
+        if own_done(e):
+            return True
+        if isinstance(e, ast.Call) and is_name(e.func, "all"):
+            return True
+        if isinstance(e, ast.Call) and is_name(e.func, "any"):
+            return False
+        if isinstance(e, ast.Attribute) and e.attr == "is_completed" and isinstance(e.value, ast.Name) and e.value.id in isc_vars:
+            return True
+        return NOVALUE
+
+    for r in [n for n in gc_.nodes if n.kind == "return"]:
+        ob.inst(isc, r.ast, "is_completed")
+        if gc_.search([gc_.entry], lambda n, r=r: n is r, skip_edge=scenario(gc_, env_pending), include_start=True) is not None:
+            v1 = eval_expr(r.ast.value, env_pending) if r.ast.value is not None else None  # type: ignore[union-attr]
+            if v1 is NOVALUE or v1:
+                ob.fail(isc, r.ast, "is_completed can be true while the scope's own completion is still pending: a parent then completes (and fires its callback) before this scope was left")
+        if gc_.search([gc_.entry], lambda n, r=r: n is r, skip_edge=scenario(gc_, env_all_done), include_start=True) is not None:
+            v2 = eval_expr(r.ast.value, env_all_done) if r.ast.value is not None else None  # type: ignore[union-attr]
+            if v2 is not NOVALUE and not v2:
+                ob.fail(isc, r.ast, "is_completed is false although the scope and all nested scopes completed")
 
     # ------------------------------------------------------------------ C09.8 failing enter finishes the pre-registered metrics
     saenter = prog.fn("context.access.ScopeContext.__aenter__")
